@@ -134,9 +134,14 @@ func Load(dir, goarch string, tags []string, overlay map[string][]byte) (*Ctx, e
 	for _, f := range pp.CompiledGoFiles {
 		c.Files = append(c.Files, filepath.Base(f))
 	}
+	curCtx = c
 	c.index()
 	return c, nil
 }
+
+// curCtx: the program being analysed (set by Load; used by free helper functions that need to recognise the library's
+// own functions).
+var curCtx *Ctx
 
 func (c *Ctx) index() {
 	seen := map[*ssa.Function]bool{}
